@@ -3,15 +3,28 @@ from lib.props.meta_common import ASSUME_COMMON
 ID = "C06"
 META = dict(
     LEVEL="exploration",
-    RULE=("operation histories over {first,last,next,prev,clear,copy,seek_index(i) for every i and out-of-range i, "
-          "seek(x) at each tree's left/mid/nextafter(right) and out-of-range/NaN x}: exhaustive depth-bounded DFS "
-          "(prefixes shared through Tree.copy()) on 4 hand-built tree sequences x 4 option sets and on generated small tree "
-          "sequences, plus random walks of 20-80 operations on larger generated tree sequences; after EVERY operation the "
-          "observable state (index, interval, parent, child sets, counts, tracked counts, sample lists, edge array, roots, "
-          "sites, mutations) is compared with a fresh Tree seeked to the model index and with the reference forest. "
-          "Distinct = sha1 of (workload kind, input rows, option set)."),
-    REQUIRED=["steps", "state-comparisons", "reference-checks", "error-transitions", "dfs-runs", "walks"],
-    ASSUMPTIONS=ASSUME_COMMON + ["Tree.copy() is used to share DFS prefixes; random walks never copy unless the walk draws it"],
+    RULE=("operation histories over {first,last,next,prev,clear,copy,seek_index(i) for every i, seek(x) at each tree's "
+          "left/mid/nextafter(right), one failing call of each kind}: exhaustive depth-bounded DFS (prefixes shared through "
+          "Tree.copy(); every DFS node re-compared after its copies moved) on 6 hand-built tree sequences x 4 option sets and on "
+          "generated small tree sequences, with a probe set applied at the DFS nodes and drawn in walks: exact boundaries "
+          "(-0.0, +-5e-324, L/2 and its neighbours, nextafter(L), +-inf, NaN, index -T, -T-1, 2^31-1, 2^31, 2^32, 2^32+T-1, 2^64), "
+          "argument forms (keyword, numpy float32/float64/int32/int64 scalars, integer positions, negative spelling of every "
+          "index, the low-level object with valid and invalid arguments); plus random walks of 20-80 operations that start "
+          "from each way of obtaining a Tree (constructor with tracked samples as list/tuple/array/positional, "
+          "TreeSequence.first/last/at/at_index/aslist, the trees() iterator and its reverse with next(iterator) as an operation, "
+          "deprecated keyword aliases), park copies/originals and resume them later, run a second Tree with other options on "
+          "the same tree sequence (10 %), on generated inputs (single-tree inputs redrawn in 85 % of cases), msprime inputs "
+          "(4 %), inputs with 40-300 trees (8 %) and inputs with 257-300 edges per breakpoint or a 100-deep chain of sample "
+          "nodes (1 %). After EVERY operation the observable state (index, interval, parent, child sets, counts, tracked "
+          "counts, sample lists, edge array, roots, sites, mutations, num_sites, totals, traversal arrays, ==/!=) is compared "
+          "with a fresh Tree seeked to the model index and with the reference forest (the edge-free forest in the null state). "
+          "Distinct = sha1 of (workload kind, start form, input rows, option set)."),
+    REQUIRED=["steps", "state-comparisons", "reference-checks", "null-reference-checks", "error-transitions", "dfs-runs",
+              "walks", "eq-checks", "seek-contains", "seeks-from-null", "boundary-ops", "form-ops", "ll-error-transitions",
+              "iterator-steps", "copy-independence", "start-forms", "deep-reference-checks"],
+    ASSUMPTIONS=ASSUME_COMMON + ["Tree.copy() is used to share DFS prefixes; random walks copy only when the walk draws it",
+                                 "a failed low-level call / a call on an exhausted iterator may leave the tree anywhere: the state "
+                                 "is compared at the index the tree reports"],
     HANG_IS_VIOLATION=True,
     BUDGET={"quick": 50.0, "thorough": 900.0},
 )
